@@ -156,7 +156,8 @@ def run_sem(prop, tier, v, families=None, opts=None, replay_cases=None, want=("s
         R["api_matches"] = sum(j["matches"] for j in R["jlines"] if j["kind"] == "apistat")
     if "cost" in want:
         t0 = time.time()
-        results, njudged = judge_sharded("JudgeCost", "JudgeCost.cfg", obs, work, "cost", parts=parts)
+        fuel = ropts[ropts.index("--fuel") + 1] if "--fuel" in ropts else "2000000"
+        results, njudged = judge_sharded("JudgeCost", "JudgeCost.cfg", obs, work, "cost", parts=parts, env={"FUEL": fuel})
         C.log("judge (cost): %d records in %.1fs" % (njudged, time.time() - t0))
         absorb(results)
         cs = [j for j in R["jlines"] if j["kind"] == "coststat"]
@@ -164,6 +165,9 @@ def run_sem(prop, tier, v, families=None, opts=None, replay_cases=None, want=("s
             raise C.ToolError("cost judge reported on %d of %d records" % (len(cs), nobs))
         R["cost_ratio"] = max([j["ratio100"] for j in cs] + [0]) / 100.0
         R["cost_runs"] = sum(j["runs"] for j in cs)
+        R["cost_undecided"] = sum(j.get("undecided", 0) for j in cs)
+        if R["cost_undecided"]:
+            v.note("%d run(s) spent the fuel (%s steps) where the permitted bound exceeds it: undecided" % (R["cost_undecided"], fuel))
     if "vm" in want:
         def _vm():
             t0 = time.time()
@@ -488,6 +492,7 @@ def coverage(R, samples, rule):
         "machine_state_space_states": R.get("space_states", 0), "machine_state_space_programs": R.get("space_programs", 0),
         "evaluations": evals, "distinct_nontrivial": nontriv,
         "programs": R["ncases"], "families": R["counts"],
+        "cost_runs_undecided_for_lack_of_fuel": R.get("cost_undecided", 0),
         "explained_by_findings_of_other_properties": R.get("explained_by_findings_of_other_properties", {}),
         "rule": rule, "samples": samples, "exhaustive": True, "skipped_machine_layers": R.get("skipped_layers", []),
     }
